@@ -209,3 +209,23 @@ Proof.
   - contradiction.
   - rewrite Hl in H2. destruct H2; discriminate.
 Qed.
+
+(** an error reported "at end of input" names the line of the last byte of the last (non-comment)
+    token of the source — line 1 if there is none *)
+Theorem parse_error_eof_line prof src e n :
+  byte_len src < u32_limit -> parse prof src = ParseErr e -> pe_loc e = PLLine n ->
+  exists pts, lex prof src = Ok pts /\
+    match rev (drop_comments pts) with
+    | [] => n = 1
+    | pt :: _ => n = pt_line pt /\ In pt pts /\ ptok_in src pt
+    end.
+Proof.
+  intros Hb Hp Hloc. destruct (parse_error_located prof src e Hb Hp) as (pts & Hl & H). rewrite Hloc in H.
+  exists pts. split; auto. unfold line_after in H.
+  pose proof (lex_post_lines prof src pts Hb Hl) as F. rewrite Forall_forall in F.
+  destruct (rev (drop_comments pts)) as [|pt r] eqn:E; auto.
+  assert (Hin : In pt pts).
+  { assert (In pt (drop_comments pts)) by (apply in_rev; rewrite E; left; reflexivity).
+    unfold drop_comments in H0. apply filter_In in H0. tauto. }
+  repeat split; auto.
+Qed.
